@@ -268,11 +268,6 @@ def derived(ix, R):
             slot = ra_.args[1].const() if ra_ is not None and ra_.head == 'idx' and isinstance(ra_.args[1], RF) else None
             if slot != (1 if isw else 0):
                 why6.append('%s appended to list %s of the pair' % ('weight' if isw else 'value', slot))
-        for g_, k_, nm_ in ((qev.args[0], 0, 'trace'), (W, 1, 'weights')):
-            ga = atom_of(fl, g_) if g_ is not None else None
-            src = atom_of(fl, ga.args[0]) if ga is not None and ga.head == 'call' and 'allreduce' in ga.extra[0] and ga.args else None
-            if src is None or src.head != 'idx' or not isinstance(src.args[1], RF) or src.args[1].const() != k_:
-                why6.append('the gathered %s is not list %d of the pair' % (nm_, k_))
     if len(apps) == 2:
         sl = apps[0].loops[0]
         ra = [fmt(fl, x) for x in (sl.range_args or [])]
@@ -281,16 +276,48 @@ def derived(ix, R):
             why6.append('sample loop is range(%s), expected range(rank, number of samples, number of ranks)' % ', '.join(ra))
     W0 = spec(fl, 'self.get_weights(S)', param_env(fl, f, ['S']))
     stores_ = [e for e in fl.of('store') if lp in e.loops]
-    tr_g = qev.args[0]
-    w_g = W
-    for buf, nm in ((tr_g, 'trace'), (w_g, 'weights')):
-        want_t = fl.tab.atom('idx', (buf, spec(fl, 'argsort(w)', {'w': W0})))
-        want_v = fl.tab.atom('idx', (buf, spec(fl, 'argsort(g)', {'g': w_g})))
-        hit = [e for e in stores_ if fl.tab.equal(e.target, want_t) and fl.tab.equal(e.value, want_v)
-               and fl.events.index(e) < fl.events.index(qev) and not [g for g in e.guards if not lic_d(g)]]
-        if len(hit) != 1:
-            why6.append('the gathered %s is not put back into sample order (X[argsort(weights)] = X[argsort(gathered weights)]) '
-                        'before the quantiles' % nm)
+    # what is gathered: list 0 (values) and list 1 (weights) of each parameter's pair
+    G = {}
+    for e in fl.of('assign'):
+        if lp in e.loops and isinstance(e.value, RF):
+            for a_ in e.value.all_atoms():
+                at_ = fl.tab.atoms[a_]
+                if at_.head == 'call' and at_.extra and 'allreduce' in at_.extra[0] and at_.args:
+                    src = atom_of(fl, at_.args[0])
+                    if src is not None and src.head == 'idx' and isinstance(src.args[1], RF) and src.args[1].const() in (0, 1):
+                        G.setdefault(int(src.args[1].const()), e.value)
+    for k_, nm_ in ((0, 'trace'), (1, 'weights')):
+        if k_ not in G:
+            why6.append('the gathered %s is not list %d of the pair' % (nm_, k_))
+
+    def unarray(x):
+        while x is not None:
+            a_ = atom_of(fl, x)
+            if a_ is not None and a_.head == 'call' and a_.extra[0] in ('fn:array', 'fn:asarray') and len(a_.args) == 1:
+                x = a_.args[0]
+                continue
+            break
+        return x
+    if 0 in G and 1 in G:
+        P0 = spec(fl, 'argsort(w)', {'w': W0})
+        PG = spec(fl, 'argsort(g)', {'g': G[1]})
+        for Q, k_, nm in ((qev.args[0], 0, 'trace'), (W, 1, 'weights')):
+            Q0 = unarray(Q)
+            qa = atom_of(fl, Q0) if Q0 is not None else None
+            inplace = Q0 is not None and (fl.tab.equal(Q0, G[k_]) or fl.tab.equal(Q0, unarray(G[k_])))
+            fresh = qa is not None and qa.head == 'alloc'
+            if not (inplace or fresh):
+                why6.append('what reaches the quantiles as %s is %s, not the gathered list %d' % (
+                    nm, fmt(fl, Q0)[:80] if Q0 is not None else None, k_))
+                continue
+            want_t = fl.tab.atom('idx', (Q0, P0))
+            want_v = fl.tab.atom('idx', (G[k_], PG))
+            hit = [e for e in stores_ if (fl.tab.equal(e.target, want_t) or fl.tab.equal(e.target, fl.tab.atom('idx', (G[k_], P0))))
+                   and fl.tab.equal(e.value, want_v)
+                   and fl.events.index(e) < fl.events.index(qev) and not [g for g in e.guards if not lic_d(g)]]
+            if len(hit) != 1:
+                why6.append('the gathered %s is not put back into sample order (X[argsort(weights)] = X[argsort(gathered weights)]) '
+                            'before the quantiles' % nm)
     keyst = [e for e in stores_ if atom_of(fl, e.target) is not None and atom_of(fl, e.target).head == 'idx'
              and 'derived' in fmt(fl, atom_of(fl, e.target).args[1])]
     rets = [e for e in fl.of('return') if e.value is not None and fmt(fl, e.value) != 'None']
